@@ -19,15 +19,18 @@ package ledger
 //                                                           (rnd, a) for EVERY address of the universe
 
 import (
+	"context"
 	"fmt"
 	"io"
 	"testing"
 
 	"github.com/stretchr/testify/require"
 
+	"github.com/algorand/go-algorand/config"
 	"github.com/algorand/go-algorand/data/basics"
 	"github.com/algorand/go-algorand/data/txntest"
 	"github.com/algorand/go-algorand/ledger/ledgercore"
+	"github.com/algorand/go-algorand/ledger/store/trackerdb"
 	"github.com/algorand/go-algorand/logging"
 	"github.com/algorand/go-algorand/protocol"
 )
@@ -213,6 +216,35 @@ func (h *vc12Hist) opQuery(rnd basics.Round) {
 	h.w.st["q_ok"]++
 }
 
+// what the tracker DB holds: the accounttotals row against the accounts of the DB round (read
+// through LookupAccount at dbRound, i.e. from the persisted account table)
+func (h *vc12Hist) opQueryPersisted() {
+	l := h.w.l
+	var dbRound basics.Round
+	var tot ledgercore.AccountTotals
+	err := l.trackerDBs.Snapshot(func(ctx context.Context, tx trackerdb.SnapshotScope) (err error) {
+		ar, err := tx.MakeAccountsReader()
+		if err != nil {
+			return err
+		}
+		dbRound, err = ar.AccountsRound()
+		if err != nil {
+			return err
+		}
+		tot, err = ar.AccountsTotals(ctx, false)
+		return err
+	})
+	require.NoError(h.w.t, err)
+	accts := make([]interface{}, 0, len(h.w.addrs))
+	for i, a := range h.w.addrs {
+		d, _, without, err := l.LookupAccount(dbRound, a)
+		require.NoError(h.w.t, err)
+		accts = append(accts, vL(i, uint64(d.Status), d.MicroAlgos.Raw, without.Raw))
+	}
+	h.ops = append(h.ops, vL(vSym("q"), uint64(dbRound), vL(vSym("ok"), vc12Totals(tot)), accts))
+	h.w.st["q_persisted"]++
+}
+
 // query every servable round, plus one below and one above
 func (h *vc12Hist) opQueryAll() {
 	db, lat := h.w.dbRound(), h.w.l.Latest()
@@ -233,7 +265,16 @@ func vc12History(t *testing.T, out *vOut, r *vRand, hno int, st map[string]int) 
 	if r.Intn(2) == 0 {
 		refresh = uint64(3 + r.Intn(6))
 	}
-	cv := vlhProto(vlhProtoOpts{RewardUnit: unit, RefreshInterval: refresh})
+	// every 4th history runs with catchpoint tracking on (interval 10, lookback 4: first-stage rounds
+	// 6, 16, 26, ...): the catchpoint tracker shortens a flush that crosses such a round AFTER
+	// accountUpdates produced its part of the commit task; flushes are large and followed by a reload
+	cp := hno%4 == 3
+	po := vlhProtoOpts{RewardUnit: unit, RefreshInterval: refresh}
+	if cp {
+		po.CatchpointLookback = 4
+		st["histories_with_catchpoints"]++
+	}
+	cv := vlhProto(po)
 	st[fmt.Sprintf("unit_%d", unit)]++
 
 	n := 5 + r.Intn(6)
@@ -270,13 +311,18 @@ func vc12History(t *testing.T, out *vOut, r *vRand, hno int, st map[string]int) 
 	}
 	accts[vlhSink], accts[vlhPool] = sink, pool
 
-	lru := r.Intn(4) == 0
+	lru := r.Intn(4) == 0 && !cp
 	reloadsLeft := 1000
 	if lru {
 		reloadsLeft = 1
 		st["histories_with_lru"]++
 	}
-	w := vlhOpen(t, r, cv, order, accts, lru, st)
+	w := vlhOpen(t, r, cv, order, accts, lru, st, func(cfg *config.Local) {
+		if cp {
+			cfg.CatchpointInterval = 10
+			cfg.CatchpointTracking = 1
+		}
+	})
 	defer w.close()
 	h := &vc12Hist{w: w, unit: unit, nAccts: n, nextNew: hno*100 + 50}
 	for _, a := range w.addrs {
@@ -287,6 +333,10 @@ func vc12History(t *testing.T, out *vOut, r *vRand, hno int, st map[string]int) 
 
 	rounds := vEnvInt("VERIF_C12_ROUNDS", 30)
 	rounds = rounds/2 + r.Intn(rounds/2+1)
+	if cp && rounds < 28 {
+		rounds = 28
+	}
+	broken := false
 	for rd := 0; rd < rounds; rd++ {
 		var txs []*txntest.Txn
 		ntx := r.Intn(4)
@@ -356,6 +406,32 @@ func vc12History(t *testing.T, out *vOut, r *vRand, hno int, st map[string]int) 
 			h.opQuery(db + basics.Round(r.Intn(int(lat-db)+1)))
 		}
 		// schedule
+		if cp {
+			// one large flush whenever 7 or more rounds are pending, then a reload: what is persisted
+			// for the round the flush really ended at is what gets served afterwards
+			if db := w.dbRound(); lat-db >= 7 && r.Intn(2) == 0 {
+				lb := basics.Round(r.Intn(2))
+				after, _ := w.commit(lb)
+				h.ops = append(h.ops, vL(vSym("c"), uint64(after)))
+				st["commits"]++
+				if after < lat-lb {
+					st["commit_cut_by_catchpoint"]++
+				}
+				h.opQueryAll()
+				h.opQueryPersisted()
+				if err := w.l.reloadLedger(); err != nil {
+					// the persisted state cannot even be replayed: the history ends here (the
+					// persisted-totals observation above carries the evidence)
+					st["reload_failed"]++
+					broken = true
+					break
+				}
+				h.ops = append(h.ops, vL(vSym("r")))
+				st["reloads"]++
+				h.opQueryAll()
+			}
+			continue
+		}
 		switch k := r.Intn(12); {
 		case k < 3:
 			lb := basics.Round(r.Intn(6))
@@ -380,7 +456,9 @@ func vc12History(t *testing.T, out *vOut, r *vRand, hno int, st map[string]int) 
 			h.opQueryAll()
 		}
 	}
-	h.opQueryAll()
+	if !broken {
+		h.opQueryAll()
+	}
 	out.Case(vSym("led"), unit, genesis, h.ops)
 	st["histories"]++
 	st[fmt.Sprintf("universe_%d", min(len(w.addrs)/5*5, 30))]++
